@@ -107,21 +107,51 @@ let parse_bop toks = match toks with
   | _ -> raise (Bad (String.concat " " toks))
 
 (* a world is a closure: op tokens -> (world, obs, micro-step machine agrees?)
-   For the Mutex, the Semaphore and the Barrier the poll-granular model runs in lockstep with the micro-step machine of
+   For every primitive the poll-granular model runs in lockstep with the micro-step machine of
    coq/Sched/*EvSched.v executed without interleaving (coq/Sched/*EvSolo.v); the flag says whether the two states
    still correspond after the operation. *)
 type world = W of (string list -> world * obs * bool)
 let rec mk_m x = W (fun t -> let ((x', o), ok) = mstep2 true x (parse_mop t) in (mk_m x', o, ok))
 let rec mk_s x = W (fun t -> let ((x', o), ok) = sstep2 true x (parse_sop t) in (mk_s x', o, ok))
-let rec mk_r x = W (fun t -> let (x', o) = rstep x (parse_rop t) in (mk_r x', o, true))
-let rec mk_o x = W (fun t -> let (x', o) = ostep x (parse_oop t) in (mk_o x', o, true))
+let rec mk_r x = W (fun t -> let ((x', o), ok) = rstep2 x (parse_rop t) in (mk_r x', o, ok))
+(* OnceCell: the harness operations `initb v` (get_or_init_blocking with a closure that completes at once) and
+   `init trypc` (get_or_try_init with a closure that panics when it is called) are replayed on the model as the
+   histories they are equal to: a set-like / get_or_init future that is started, polled once and dropped; a
+   get_or_try_init future whose initialiser is resolved to a panic before its first poll. The micro-step machine runs in
+   lockstep (OnceEvSolo). *)
+let once_expand (x : oworld) (t : string list) : oop list * int =
+  (* (model operations, index of the one whose result is reported) *)
+  match t with
+  | ["initb"; v] ->
+      if not x.o_alive then ([OGet], 0)
+      else
+        let st = z_of_n x.o_sh.sw0 in
+        if Z.equal st Z.one then ([OPoll (nat_of_int 1000000, O)], 0)
+        else
+          let k = if Z.equal st (Z.of_int 2) then IKInit else IKSet (n_of_string v) in
+          ([OStartInit k; OPoll (x.o_nf, O); ODropFut x.o_nf], 1)
+  | ["init"; "trypc"] ->
+      if not x.o_alive then ([OGet], 0) else ([OStartInit IKTry; OResolve (x.o_nf, OPanic)], 0)
+  | _ -> ([parse_oop t], 0)
+let rec mk_o xs = W (fun t ->
+  let (((x, _), _)) = xs in
+  let (ops, ri) = once_expand x t in
+  let rec go xs ops i res wakes dump ok = match ops with
+    | [] -> (xs, res, wakes, dump, ok)
+    | o :: r ->
+        let ((xs', ob), ok') = ostep2 xs o in
+        go xs' r (i + 1) (if i = ri then Some ob.o_res else res) (wakes @ ob.o_wakes) (Some ob.o_dump) (ok && ok') in
+  let (xs', res, wakes, dump, ok) = go xs ops 0 None [] None true in
+  match res, dump with
+  | Some r, Some d -> (mk_o xs', { o_res = r; o_wakes = wakes; o_dump = d }, ok)
+  | _ -> raise (Bad "empty expansion"))
 let rec mk_b x = W (fun t -> let ((x', o), ok) = bstep2 x (parse_bop t) in (mk_b x', o, ok))
 
 let init_world toks = match toks with
   | ["mutex"] -> mk_m mw2_init
   | ["sem"; n] -> mk_s (sw2_init (n_of_string n))
-  | ["rw"] -> mk_r rw0
-  | ["once"] -> mk_o ow0
+  | ["rw"] -> mk_r rw2_init
+  | ["once"] -> mk_o ow2_init
   | ["bar"; n] -> mk_b (bw2_init (n_of_string n))
   | _ -> raise (Bad ("header " ^ String.concat " " toks))
 
